@@ -73,9 +73,7 @@ fn flavours_env(all: Vec<adapt::Flavour>) -> Vec<adapt::Flavour> {
 
 fn main() {
   let args: Vec<String> = std::env::args().collect();
-  if std::env::var("VERIF_DEBUG").is_err() {
-    std::panic::set_hook(Box::new(|_| {}));
-  }
+  vcore::install_abort_guard(std::env::var("VERIF_DEBUG").is_err());
   match args.get(1).map(|s| s.as_str()) {
     Some("replay") => {
       let r = vcore::read_replay(&args[2]);
@@ -118,6 +116,7 @@ fn main() {
         "C10" => {
           let cases = std::env::var("VERIF_CASES").ok().and_then(|s| s.parse().ok()).unwrap_or(ctx.tier.pick(1_500u64, 60_000u64));
           let scheds = ctx.tier.pick(48usize, 200usize);
+          vcore::set_current_engine("E3-locks");
           let out = vcore::drive(&ctx, &check.findings, 11, cases, move || locks::scenario_strategy(scheds), |s| locks::execute(s));
           check.absorb("E3-locks", out);
           rule = "generated programs of 2-4 threads over HybridMutex / HybridRwLock (lock/try_lock/read/write/try_*/async acquire with cancellation) x generated schedules; non-trivial = two threads contended for the lock (a thread found it held) in at least one schedule; distinct = hash of the program".into();
@@ -127,6 +126,7 @@ fn main() {
           let cases = std::env::var("VERIF_CASES").ok().and_then(|s| s.parse().ok()).unwrap_or(ctx.tier.pick(2_400u64, 100_000u64));
           let scheds = ctx.tier.pick(48usize, 200usize);
           let p2 = prop.clone();
+          vcore::set_current_engine("E3");
           let out = vcore::drive(&ctx, &check.findings, 10, cases, move || prog::scenario_strategy(fl.clone(), &p2, scheds), |s| prog::execute(s));
           check.absorb("E3", out);
           rule = format!("generated programs of 2-4 threads (producers/consumers over blocking, timed, non-blocking, batch and async forms, clone/close/drop placements) x generated schedules incl. timeout firings; evaluations = executions (programs x schedules); non-trivial for {prop} = {}; distinct = hash of the program", prog::nt_rule(&prop));
